@@ -22,7 +22,7 @@ Local Open Scope Z_scope.
 Definition exn_eqb (a b : exn) : bool :=
   match a, b with
   | IndexError, IndexError | ValueError, ValueError | TraitError, TraitError
-  | TypeError, TypeError | OtherError, OtherError => true
+  | TypeError, TypeError | OtherError, OtherError | OverflowError, OverflowError => true
   | _, _ => false
   end.
 Definition is_raise {A} (o : res A) : bool := match o with Ok _ => false | Raise _ => true end.
@@ -59,21 +59,30 @@ Section Law.
         match vld v with None => (Raise TraitError, []) | Some y => (Ok (l ++ [y], None), []) end
     | Extend vs | Iadd vs =>
         match vld_all vld vs with None => (Raise TraitError, []) | Some ys => (Ok (l ++ ys, None), []) end
-    | Imul n => (Ok (imul l n, None), [])
+    | Imul n => if fits n then (Ok (imul l n, None), []) else (Raise OverflowError, [])
     | ImulQ _ _ => (Raise TypeError, [])                 (* can't multiply sequence by non-int *)
-    | Insert i v =>
-        match vld v with None => (Raise TraitError, []) | Some y => (Ok (insert l i y, None), []) end
+    | Insert i v =>                  (* an index beyond a machine word: OverflowError *)
+        match vld v with
+        | None => (Raise TraitError, if fits i then [] else [OverflowError])
+        | Some y => if fits i then (Ok (insert l i y, None), []) else (Raise OverflowError, [])
+        end
     | Pop oi =>
-        (bind (pop l (match oi with Some i => i | None => -1 end)) (fun p => Ok (snd p, Some (fst p))), [])
+        let i := match oi with Some i => i | None => -1 end in
+        if fits i then (bind (pop l i) (fun p => Ok (snd p, Some (fst p))), []) else (Raise OverflowError, [])
     | Remove v => (lift (remove py_eq l v), [])          (* the value to remove is not validated (documented) *)
     | Reverse => (Ok (rev l, None), [])
     | Sort m r => (Ok (sort (key_leb m) r l, None), [])
     | Clear => (Ok ([], None), [])
     (* the built-in list takes an object with __index__ for the integer it stands for *)
     | InsertX i v =>
-        match vld v with None => (Raise TraitError, []) | Some y => (Ok (insert l i y, None), []) end
-    | PopX i => (bind (pop l i) (fun p => Ok (snd p, Some (fst p))), [])
-    | ImulX n => (Ok (imul l n, None), [])
+        match vld v with
+        | None => (Raise TraitError, if fits i then [] else [OverflowError])
+        | Some y => if fits i then (Ok (insert l i y, None), []) else (Raise OverflowError, [])
+        end
+    | PopX i =>
+        let i := match Some i with Some i => i | None => -1 end in
+        if fits i then (bind (pop l i) (fun p => Ok (snd p, Some (fst p))), []) else (Raise OverflowError, [])
+    | ImulX n => if fits n then (Ok (imul l n, None), []) else (Raise OverflowError, [])
     (* "can only assign an iterable" / "object is not iterable"; a zero step is reported first *)
     | SetSliceN sl => if slice_step sl =? 0 then (Raise ValueError, [TypeError]) else (Raise TypeError, [])
     | ExtendN => (Raise TypeError, [])
@@ -144,6 +153,19 @@ Section Law.
     | o :: r =>
         let l' := match fst (builtin l o) with Ok (l', _) => l' | Raise _ => l end in
         l' :: pylist_run l' r
+    end.
+
+  (* histories on a TraitListObject: the steps refused for length reasons are
+     TraitError steps that leave the list alone (see C04); all others obey the law *)
+  Definition refused (l : list Z) (ob : obs) : bool :=
+    match o_out ob with Raise TraitError => zlist_eqb (o_after ob) l && is_nil (o_events ob) | _ => false end.
+
+  Fixpoint law_hist_tlo (i : Z) (before : list Z) (h : list (op * obs)) : list Z :=
+    match h with
+    | [] => []
+    | (o, ob) :: r =>
+        (if refused before ob then [] else map (fun c => 100 * i + c) (law_step before o ob))
+        ++ law_hist_tlo (i + 1) (o_after ob) r
     end.
 
   Fixpoint law_hist (i : Z) (before : list Z) (h : list (op * obs)) : list Z :=
